@@ -73,6 +73,10 @@ def centroid_1dg(data, error=None, mask=None):
 
     # copy so that a mask of an input MaskedArray is not modified
     data = np.ma.array(data, copy=True)
+    if data.dtype.kind in 'iub':
+        # sums of integer data are accumulated in an integer dtype,
+        # which can overflow
+        data = data.astype(float)
 
     if mask is not None and mask is not np.ma.nomask:
         mask = np.asanyarray(mask)
@@ -241,6 +245,10 @@ def centroid_2dg(data, error=None, mask=None):
 
     # copy so that a mask of an input MaskedArray is not modified
     data = np.ma.array(data, copy=True)
+    if data.dtype.kind in 'iub':
+        # sums of integer data are accumulated in an integer dtype,
+        # which can overflow
+        data = data.astype(float)
 
     if mask is not None and mask is not np.ma.nomask:
         mask = np.asanyarray(mask)
